@@ -87,6 +87,14 @@ def build(root, repo, work, seed=0, tier="quick"):
             disp_all.append('    for_all(%s, if n == 0 { %d } else { %d }, &mut |seq: &[Tok]| { %s; });' % (alpha, cfg.get("random_len_quick", 4), cfg.get("random_len_thorough", 5), call))
             disp_one.append('        "%s" => { %s; }' % (vn, call))
     cfg["_random"] = [dict(name=g["name"], grammar=g["text"]) for g in rnd]
+    rlex = random_lexers(seed, cfg.get("random_lexers_thorough", 16) if tier == "thorough" else cfg.get("random_lexers_quick", 6), lalrpop, gdir, renv)
+    for g in rlex:
+        mods.append('#[allow(warnings)] #[path = "gen/%s.rs"] mod %s;' % (g["name"], g["name"]))
+        oracle_fns.append(g["spec"])
+        call = 'check_lexer(rep, "%s", &spec_%s(), text, &|log, t| %s::SParser::new().parse(log, t))' % (g["name"], g["name"], g["name"])
+        lex_all.append('    for_all_text(LEX_ALPHA, if n == 0 { %d } else { %d }, &mut |text: &str| { %s; });' % (cfg["lex_len_quick"], cfg["lex_len_thorough"], call))
+        lex_one.append('        "%s" => { %s; }' % (g["name"], call))
+    cfg["_random_lexers"] = [dict(name=g["name"], grammar=g["text"]) for g in rlex]
     open(os.path.join(crate, "src", "generated_mods.rs"), "w").write("\n".join(mods) + "\n")
     lens = "\n".join("const LENS_%s: (usize, usize) = (%d, %d);" % (k.upper(), g["len_quick"], g["len_thorough"]) for k, g in cfg["grammars"].items())
     open(os.path.join(crate, "src", "generated_dispatch.rs"), "w").write(
@@ -447,6 +455,96 @@ def _random_grammar(rng):
     return nn, prods, used
 
 
+# ---------------------------------------------------------------------------------------------------------------
+# random built-in-lexer grammars (seeded): match blocks of 1-3 rungs over a pool of literals, regexes and skip rules,
+# `_` in a random rung (or none), extra terminals used only in the grammar.  The reference tokenizer's specification
+# (rung, literal?, skip?) is derived from the SAME random choices by the documented rules, not from lalrpop's output.
+# ---------------------------------------------------------------------------------------------------------------
+RLEX_LITS = ["if", "fi", "+", "x", "i", "1", "#", "xx"]
+RLEX_RES = [("ID", "[a-z]+"), ("NUM", "[0-9]+"), ("WORD", "[a-z0-9]+"), ("LETTER", "[a-z]"), ("IS", "i+"), ("FX", "[fx]x?"),
+            ("ACC", "é+"), ("DIG", "[12]"), ("PLUSES", r"\++")]
+RLEX_SKIPS = [" +", r"\t", "#[a-z0-9 +]*", r"[ \t]+", "#"]
+
+
+def _random_lexer(rng):
+    nr = rng.choice([1, 1, 2, 2, 3])
+    lits = rng.sample(RLEX_LITS, rng.randint(1, 3))
+    res = rng.sample(RLEX_RES, rng.randint(1, 3))
+    skips = rng.sample(RLEX_SKIPS, rng.choice([0, 0, 1, 1, 2]))
+    catch = rng.choice([None] + list(range(nr)))          # rung holding `_`
+    rungs = [[] for _ in range(nr)]
+    for l in lits:
+        rungs[rng.randrange(nr)].append(("lit", l))
+    for (n, r) in res:
+        rungs[rng.randrange(nr)].append(("re", n, r))
+    for sk in skips:
+        rungs[rng.randrange(nr)].append(("skip", sk))
+    extra = []
+    if catch is not None:
+        el = [l for l in RLEX_LITS if l not in lits]
+        er = [x for x in RLEX_RES if x not in res]
+        extra = [("lit", l) for l in rng.sample(el, rng.randint(0, 2))] + [("re", n, r) for (n, r) in rng.sample(er, rng.randint(0, 1))]
+    if any(not r for i, r in enumerate(rungs) if i != catch):
+        return None
+    spec, alts, lines = [], [], []
+    for i, r in enumerate(rungs):
+        items = []
+        for e in r:
+            if e[0] == "lit":
+                items.append('"%s"' % e[1])
+                spec.append((e[1], True, e[1], i, False))
+                alts.append(('"%s"' % e[1], e[1]))
+            elif e[0] == "re":
+                items.append('r#"%s"# => %s' % (e[2], e[1]))
+                spec.append((e[1], False, e[2], i, False))
+                alts.append((e[1], e[1]))
+            else:
+                items.append('r#"%s"# => { }' % e[1])
+                spec.append(("", False, e[1], i, True))
+        if catch == i:
+            items.append("_")
+        lines.append("{ " + ", ".join(items) + " }")
+    for e in extra:
+        if e[0] == "lit":
+            spec.append((e[1], True, e[1], catch, False))
+            alts.append(('"%s"' % e[1], e[1]))
+        else:
+            spec.append((e[1], False, e[2], catch, False))
+            alts.append(('r#"%s"#' % e[2], e[1]))
+    if not skips:
+        spec.insert(0, ("", False, r"\s+", -1, True))     # "the implicit \s+ skip above all when no skip rule exists"
+    text = "grammar(log: &mut Vec<(usize, &'static str, String, usize)>);\nmatch " + " else ".join(lines) + "\n"
+    text += "pub S: () = { T* => () };\nT: () = {\n"
+    for (term, name) in alts:
+        text += '    <l:@L> <t:%s> <r:@R> => log.push((l, "%s", t.to_string(), r)),\n' % (term, name.replace('"', '\\"'))
+    text += "};\n"
+    return text, spec
+
+
+def random_lexers(seed, want, lalrpop, gdir, env):
+    import random
+    rng = random.Random(15485863 * (seed + 1))
+    out, tries = [], 0
+    while len(out) < want and tries < 40 * want:
+        tries += 1
+        g = _random_lexer(rng)
+        if g is None:
+            continue
+        text, spec = g
+        name = "rlex%d" % len(out)
+        src = os.path.join(gdir, name + ".lalrpop")
+        open(src, "w").write(text)
+        q = subprocess.run([lalrpop, "--force", "--level", "quiet", src], cwd=gdir, env=env, capture_output=True, text=True, timeout=300)
+        if q.returncode != 0 or not os.path.exists(os.path.join(gdir, name + ".rs")):
+            os.remove(src)            # ambiguous terminals, unused-terminal errors, ..: not a grammar lalrpop accepts
+            continue
+        rust = "fn spec_%s() -> Vec<TermSpec> { vec![\n%s ] }" % (name, "\n".join(
+            '    TermSpec { name: "%s", lit: %s, pat: r#"%s"#, rung: %d, skip: %s },' % (
+                n.replace('"', '\\"'), "true" if lit else "false", pat, rung, "true" if sk else "false") for (n, lit, pat, rung, sk) in spec))
+        out.append(dict(name=name, text=text, spec=rust))
+    return out
+
+
 def random_grammars(seed, want, lalrpop, gdir, env):
     """-> list of dict(name, prods, terms) for grammars the DEFAULT configuration of lalrpop accepts"""
     import random
@@ -525,7 +623,7 @@ def run_gen_unit(root, repo, us, prop, tier, seed, work):
     for (full, variant, fprop, inp, erri, msg, rarg) in fails:
         r["failed"].append(dict(id="native/gen:%s:%s" % (variant, fprop), function=variant, message=full[:600], clause="",
                                 tags=[fprop], output=full, counterexample="variant %s, tokens [%s]%s" % (variant, inp, (", stream error at item %s" % erri) if erri else ""),
-                                replay_gen=dict(arg=rarg.strip())))
+                                replay_gen=dict(arg=rarg.strip(), seed=seed, tier=tier)))
     if p.returncode not in (0, 1) or n == 0:
         r["reason"] = "harness crashed or checked nothing: " + (out + p.stderr)[-600:]
         # a panic inside a generated parser / the runtime on some input is itself a C08 violation
@@ -541,7 +639,7 @@ def run_gen_unit(root, repo, us, prop, tier, seed, work):
     an, afails = run_ambig(root, repo, cfg, cfg["_lalrpop"], work, seed=seed, tier=tier)
     for af in afails:
         r["failed"].append(dict(id="native/gen:ambig_%s:C11" % af["pair"].replace(":", "_"), function="lexer ambiguity check", message=af["msg"][:600], clause="",
-                                tags=["C11"], output=af["msg"], counterexample=af["msg"], replay_gen=dict(arg="ambig=" + af["pair"])))
+                                tags=["C11"], output=af["msg"], counterexample=af["msg"], replay_gen=dict(arg="ambig=" + af["pair"], seed=seed, tier=tier)))
     n += an
     r["evaluations"] = n
     r["distinct_nontrivial"] = n
@@ -556,12 +654,14 @@ def run_gen_unit(root, repo, us, prop, tier, seed, work):
 def replay(root, repo, d):
     work = os.path.join(root, "work", "replay-%d" % os.getpid())
     try:
-        exe, cfg, err = build(root, repo, work)
+        # the random grammars of a run depend on its seed and tier: rebuild the harness the failing run used
+        rseed, rtier = int(d["replay_gen"].get("seed", 0)), d["replay_gen"].get("tier", "quick")
+        exe, cfg, err = build(root, repo, work, rseed, rtier)
         if err:
             print("replay could not be built: " + err)
             return 2
         if d["replay_gen"]["arg"].startswith("ambig="):
-            an, afails = run_ambig(root, repo, cfg, cfg["_lalrpop"], work, only=d["replay_gen"]["arg"][6:])
+            an, afails = run_ambig(root, repo, cfg, cfg["_lalrpop"], work, only=d["replay_gen"]["arg"][6:], seed=rseed, tier=rtier)
             for af in afails:
                 print("FAILING-INPUT: " + af["msg"])
             if afails:
